@@ -302,16 +302,47 @@ def is_public(f):
     return f.vis == 'Public'
 
 
-def loop_every_iteration(fn, next_call, must_block):
-    """every iteration of the loop driven by `next_call` that comes back for another element passes `must_block`
-    (paths leaving the loop, e.g. exhaustion or an error return, are not iterations)"""
+def some_arm(fn, next_call):
+    """block at which the element produced by `next_call` is in hand (the Some arm, after an optional `.transpose()?`)"""
     import paths
-    loop = paths.natural_loop(fn, next_call.bb)
-    if not loop:
+    cur = next_call.target
+    for _ in range(12):
+        if cur is None or cur < 0:
+            return None
+        sw = paths.switch_at(fn, cur)
+        if sw is not None:
+            d = fn.term(sw['discr'])
+            if d[0] == 'discr' and paths.mentions_call(d[1], next_call.bb):
+                # type of the discriminated place
+                ty = ''
+                if sw['discr']['k'] in ('copy', 'move'):
+                    for dd in fn.defs().get(sw['discr']['place']['l'], []):
+                        if dd[0] == 'assign' and dd[3]['k'] == 'discr':
+                            pl = dd[3]['place']
+                            if not pl['p']:
+                                ty = fn.local_ty(pl['l'])
+                tg = {int(v): t for v, t in sw['targets']}
+                if ty.startswith('std::option::Option'):
+                    return tg.get(1, sw['otherwise'])
+                cur = tg.get(0)
+                continue
+            return None
+        ss = fn.succ(cur)
+        if len(ss) != 1:
+            return None
+        cur = ss[0]
+    return None
+
+
+def loop_every_iteration(fn, next_call, must_block):
+    """every element obtained from `next_call` is processed by `must_block`: from the Some arm, every path that
+    either asks for the next element or reaches a success return passes `must_block` (error returns excepted)"""
+    import paths
+    start = some_arm(fn, next_call)
+    if start is None:
         return False
-    outside = set(range(fn.n)) - loop
-    r = fn.reachable(next_call.target, avoid=outside | {must_block})
-    return next_call.bb not in r
+    goals = [next_call.bb] + [b for b, k, t in paths.ret_assigns(fn) if k in ('ok', 'call', 'other')]
+    return paths.must_pass(fn, start, goals, [must_block])
 
 
 def cursor_root_call(fn, t):
@@ -335,3 +366,70 @@ def full_kind_range(t):
     if lo[0] == 'const' and lo[2] == 0 and hi[0] == 'const' and hi[2] == 0xFFFFFFFF:
         return (KEY_CTORS[a[1]], a[2][0])
     return None
+
+
+# --------------------------------------------------------------------------- NodeId mode refinement
+NODE_MODES = ('Metadata', 'Updated', 'Tree', 'Item')
+
+
+def mode_facts(f, b):
+    """facts about NodeId modes that hold whenever block b executes:
+    [(canonical term of the NodeId, variant name, holds)] from edge-dominating tests
+    `match n.mode {..}` (discriminant switch) and `n.mode == NodeMode::V` / `!=`"""
+    import paths
+    out = []
+    for s, x, e in paths.controlling_conds(f, b):
+        if not paths.edge_dominates(f, s, x, b):
+            continue
+        if e[0] == 'disc' and e[1][0] == 'discr':
+            m = strip(e[1][1])
+            if m[0] == 'field' and m[2] == 'mode':
+                owner = strip_all(m[1])
+                if e[2] and not e[3]:
+                    for v in e[2]:
+                        if 0 <= v < 4:
+                            out.append((owner, NODE_MODES[v], True))
+                else:
+                    # otherwise-edge: every explicitly listed value is excluded
+                    sw = paths.switch_at(f, s)
+                    for v, tg in sw['targets']:
+                        if tg != x and 0 <= int(v) < 4:
+                            out.append((owner, NODE_MODES[int(v)], False))
+        elif e[0] == 'bool':
+            c = strip(e[1])
+            if c[0] == 'call' and c[1].endswith(('PartialEq::eq', 'PartialEq::ne')) and len(c[2]) == 2:
+                a, bb = strip(c[2][0]), strip(c[2][1])
+                var = None
+                if bb[0] == 'agg' and bb[1].endswith('NodeMode'):
+                    var, m = bb[2], a
+                elif a[0] == 'agg' and a[1].endswith('NodeMode'):
+                    var, m = a[2], bb
+                elif bb[0] == 'const' and isinstance(bb[2], str) and 'NodeMode::' in bb[2]:
+                    var, m = bb[2].split('NodeMode::')[-1].strip(), a
+                if var and m[0] == 'field' and m[2] == 'mode':
+                    is_eq = c[1].endswith('::eq')
+                    holds = e[2] if is_eq else (not e[2])
+                    out.append((strip_all(m[1]), var, holds))
+    return out
+
+
+def key_kind_at(f, c, k):
+    """kind of the key argument k of call c, refined by the mode tests dominating the call:
+    'item' | 'tree' | ... | 'not-item' | 'new' (unknown)"""
+    t = c.arg_term(k)
+    fr = full_kind_range(t)
+    if fr:
+        return fr[0]
+    ki = key_info(t)
+    if not ki:
+        return None
+    if ki[0] != 'new' or ki[2] is None:
+        return ki[0]
+    n = strip_all(ki[2])
+    facts = mode_facts(f, c.bb)
+    for owner, var, holds in facts:
+        if owner == n and holds:
+            return var.lower()
+    if any(owner == n and var == 'Item' and not holds for owner, var, holds in facts):
+        return 'not-item'
+    return 'new'
